@@ -1581,6 +1581,7 @@ bool MEDDLY::dd_edge::getElemInt(long index, minterm &m) const
     MEDDLY_DCASSERT(fp->getEdgeType() == edge_type::LONG);
 
     if (index < 0) return false;
+    if (0 == node) return false;    // index set of the empty set
 
     node_handle p = node;
     unpacked_node* U = unpacked_node::New(fp, SPARSE_ONLY);
@@ -1638,6 +1639,7 @@ bool MEDDLY::dd_edge::getElemLong(long index, minterm &m) const
     MEDDLY_DCASSERT(fp->getEdgeType() == edge_type::LONG);
 
     if (index < 0) return false;
+    if (0 == node) return false;    // index set of the empty set
 
     node_handle p = node;
     unpacked_node* U = unpacked_node::New(fp, SPARSE_ONLY);
